@@ -61,8 +61,15 @@ func (g *Group[T]) ServeHTTP(w http.ResponseWriter, r *http.Request) {
 	ctx := types.NewContext()
 	defer ctx.Destroy()
 
-	// 如果已经在 [NewGroup] 中指定了 Recovery 的相关参数，那么在初始化 g.routers
-	// 时会自动为各个路由添加，无需在此处再次添加 Recovery 的处理。
+	// 由 [Group.New] 创建的路由会继承 [NewGroup] 中指定的 Recovery 参数，自行处理 panic；
+	// 但 matcher 以及通过 [Group.Add] 添加的路由未必如此，所以需要在一开始就处理。
+	if g.recoverFunc != nil {
+		defer func() {
+			if err := recover(); err != nil {
+				g.recoverFunc(w, err)
+			}
+		}()
+	}
 
 	for _, router := range g.routers {
 		path := r.URL.Path
@@ -74,13 +81,6 @@ func (g *Group[T]) ServeHTTP(w http.ResponseWriter, r *http.Request) {
 		ctx.Reset()
 	}
 
-	if g.recoverFunc != nil { // g.notFound 可能 panic
-		defer func() {
-			if err := recover(); err != nil {
-				g.recoverFunc(w, err)
-			}
-		}()
-	}
 	g.call(w, r, ctx, g.notFound)
 }
 
